@@ -199,13 +199,27 @@ def _scan(case):
         return re.sub(r"\bc\d\b", lambda m: r[m.group(0)], s)
     t2 = {rn(p): (None if v is None else rn(v)) for p, v in tree.items()}
     root = rn("c0")
+    back = inv(r)
+    # an external library whose name is the root package's name without its first character (`roj` next to `proj`): it has
+    # nothing to do with the internal modules, whatever the components are called
+    ext = root[1:]
+    if mp == "c0" and re.fullmatch(r"[A-Za-z_]\w*", ext or "") and ext not in r.values():
+        for q in sorted(t2):
+            if q.endswith(".py"):
+                t2[q] += f"import {ext}.{rn('c1')}\nimport {ext}\n"
+                break
+        back = dict(back)
+        back[ext] = "EXT0"
     with sc.write_project(t2) as proj:
         out = sc.real_scan(proj, root, rn(mp), exclude_external_libraries=False, external_exclusions=(rn("c0.c1") + "x",))
     snap = sc.parse_snapshot(out)
     if snap is None:
         return out
-    back = inv(r)
-    return (sorted(ren(n, back) for n in snap[0]), sorted((ren(u, back), ren(v, back)) for u, v in snap[1]))
+    # the library `EXT0` itself is left out of the comparison (it is only imported under renamings for which its name is an
+    # identifier); what must not change is everything else - in particular no import of it may turn into an internal import
+    nodes = sorted(ren(n, back) for n in snap[0])
+    imps = sorted((ren(u, back), ren(v, back)) for u, v in snap[1])
+    return ([n for n in nodes if n.split(".")[0] != "EXT0"], [e for e in imps if e[1].split(".")[0] != "EXT0"])
 
 
 def judge_scans(ctx, stream, n):
@@ -294,6 +308,7 @@ def run(ctx: Ctx):
 
         s = Stream(ctx, "(e) diagram rules over sibling components whose names are string prefixes of one another (conformance by whole dotted components)")
         rng = ctx.rng("diagrams")
-        c07.judge(ctx, s, [c07.make_case(rng, ["a", "ab", "a_b", "aa", "b", "ba", "a1", "abc"], absent=False) for _ in range(ctx.size(3000, 60000))])
+        c07.judge(ctx, s, [c07.make_case(rng, ["a", "ab", "a_b", "aa", "b", "ba", "a1", "abc"] if k % 2 else ["pa", "pb", "p_c", "pp", "p1", "pab", "platform_x", "codex"], absent=False)
+                           for k in range(ctx.size(3000, 60000))])
         s.finish()
     return RULE
